@@ -787,7 +787,10 @@ func TestVerif_C02(t *testing.T) {
 					if v.light && (typ == 2 || (typ == 1 && ki%3 != 0) || (ni == 1 && typ == 0 && ki != 6 && ki != 3)) {
 						continue
 					}
-					if !full && (ni+typ+ki)%4 != 0 {
+					// the user-name family (everything after the first eleven names) is requested for EVERY certificate
+					// type on one key type at least
+					family := ni >= 11 && ki == 3
+					if !full && !family && (ni+typ+ki)%4 != 0 {
 						continue
 					}
 					if typ == 0 && !keys[ki].sshOK {
@@ -875,15 +878,15 @@ func TestVerif_C02(t *testing.T) {
 	}
 	sb.WriteString("Definition mk (ed : bool) (extra : list N) (tpl : list (bs * bs)) (realm : option bs) (exp : list (bs * option bs)) (g m : option (list bs)) (u tg : bs) (ty : N) (k : option (N * bool)) (ag : bool) (o : observed) : c02case :=\n  {| k_host := " + coqBS(host) + "; k_ed_ca := ed; k_extra := extra; k_templates := tpl; k_realm := realm; k_expansions := exp; k_groups := g; k_methods := m; k_user := u; k_target := tg; k_type := ty; k_key := k; k_add_groups := ag; k_obs := o |}.\n")
 	sb.WriteString("Definition ob (issued err ssh : bool) (names : list bs) (keyid : bs) (key : N) (ut ca ec ep : bool) (ex : list (bs * bs)) (sg : N) (orgs gr me : list bs) (krb : option (bs * bs)) : observed :=\n  {| o_issued := issued; o_error := err; o_ssh := ssh; o_names := names; o_keyid := keyid; o_key := key; o_user_type := ut; o_is_ca := ca; o_eku_client := ec; o_eku_pkinit := ep; o_exts := ex; o_signer := sg; o_orgs := orgs; o_groups := gr; o_methods := me; o_krb := krb |}.\n")
-	sb.WriteString("Definition cases : list c02case := [\n")
-	var idx strings.Builder
-	for i, cs := range cases {
+	// the shell-expansion oracle per (configuration, user), shared by the cases of that user: every template
+	// string -> its expansion, None when the expander rejects it for this user
+	expName := map[string]string{}
+	for _, cs := range cases {
 		v := variants[cs.variant]
-		realm := "None"
-		if v.realm != "" {
-			realm = "(Some " + coqBS(v.realm) + ")"
+		k := fmt.Sprintf("%d|%s", cs.variant, cs.user)
+		if _, ok := expName[k]; ok {
+			continue
 		}
-		// the shell-expansion oracle for this user: every template string -> its expansion
 		var exp []string
 		seen := map[string]bool{}
 		for _, e := range v.templates {
@@ -899,6 +902,22 @@ func TestVerif_C02(t *testing.T) {
 					exp = append(exp, "("+coqBS(s)+", Some "+coqBS(val)+")")
 				}
 			}
+		}
+		if len(exp) == 0 {
+			expName[k] = "[]"
+			continue
+		}
+		name := fmt.Sprintf("exp_%d", len(expName))
+		expName[k] = name
+		sb.WriteString(fmt.Sprintf("Definition %s : list (bs * option bs) := [%s].\n", name, strings.Join(exp, "; ")))
+	}
+	sb.WriteString("Definition cases : list c02case := [\n")
+	var idx strings.Builder
+	for i, cs := range cases {
+		v := variants[cs.variant]
+		realm := "None"
+		if v.realm != "" {
+			realm = "(Some " + coqBS(v.realm) + ")"
 		}
 		k := keys[cs.key]
 		keyLit := fmt.Sprintf("(Some (%d, %s))", cs.key, coqBool(k.isEd))
@@ -916,8 +935,8 @@ func TestVerif_C02(t *testing.T) {
 		if i == len(cases)-1 {
 			sep = ""
 		}
-		sb.WriteString(fmt.Sprintf(" mk %s %s tpl_%d %s [%s] %s %s %s %s %d %s %s\n   (ob %s %s %s %s %s %d %s %s %s %s %s %d %s %s %s %s)%s\n",
-			coqBool(v.edCA), v.extraCoq(), cs.variant, realm, strings.Join(exp, "; "),
+		sb.WriteString(fmt.Sprintf(" mk %s %s tpl_%d %s %s %s %s %s %s %d %s %s\n   (ob %s %s %s %s %s %d %s %s %s %s %s %d %s %s %s %s)%s\n",
+			coqBool(v.edCA), v.extraCoq(), cs.variant, realm, expName[fmt.Sprintf("%d|%s", cs.variant, cs.user)],
 			coqOptBSList(c02ExpectedGroups(v, cs.user), true), coqOptBSList(c02ExpectedMethods(v, cs.user), true),
 			coqBS(cs.user), coqBS(cs.target), cs.typ, keyLit, coqBool(cs.addGroups),
 			coqBool(o.issued), coqBool(o.status >= 400), coqBool(o.ssh), coqBSList(o.names), coqBS(o.keyid), o.keyIdx,
